@@ -107,7 +107,13 @@ def plan(S, prop, mode, tier, avoid):
                        "func": chance(r, 0.35), "via_xrange": chance(r, 0.4),
                        "dens": pick(r, ["flat", "gauss", "power", "rough", "steep", "fartail", "gap"]),
                        "x0": round(r.uniform(-100, 100), 3), "w": float("%.3g" % (10 ** r.uniform(-3, 3)))})
-            if chance(r, 0.12):
+            if chance(r, 0.012):
+                # a finely tabulated density and more deviates than table entries (implementations that sort the
+                # deviates for a long table meet that path here)
+                op["m"] = r.randrange(4098, 7000)
+                op["n"] = op["m"] + r.randrange(1, 3000)
+                op["dens"] = pick(r, ["gauss", "power", "rough", "flat"])
+            elif chance(r, 0.12):
                 # two samplers built one after the other from the SAME density object on the SAME grid; the object's
                 # parameters change in between
                 op.update({"func": True, "via_xrange": True, "cumulative": False, "shared": True})
@@ -731,6 +737,7 @@ def do_cholesky(run, op):
     if not judge:
         return
     mean0 = mean.copy()
+    cov0 = cov.copy()
 
     def judge_draw(got, n_, which):
         run.checks += 1
@@ -749,15 +756,15 @@ def do_cholesky(run, op):
             run.fail("rng.chol.source", ff, "dist was called %d times for %r deviates, expected one call for %d"
                      % (len(calls), [c.size for c in calls], d * nn_))
             return False
-        Lr = _cholesky(cov)
+        Lr = _cholesky(cov0)
         z = calls[0].reshape(d, nn_)
         ref = (Lr @ z).T + (mean0[None, :] if use_mean else 0.0)
         scale = (np.abs(Lr) @ np.abs(z)).T + (np.abs(mean0)[None, :] if use_mean else 0.0)
         # two correct Cholesky factorisations agree to about eps * cond(correlation matrix) relative to |L||z|
         # (the factorisation is invariant under scaling of the axes, so the condition number of the matrix scaled to
         # unit diagonal is the one that counts)
-        sd = np.sqrt(np.diag(cov))
-        kappa = float(np.linalg.cond(cov / sd[:, None] / sd[None, :])) if d > 1 else 1.0
+        sd = np.sqrt(np.diag(cov0))
+        kappa = float(np.linalg.cond(cov0 / sd[:, None] / sd[None, :])) if d > 1 else 1.0
         # ... and the error of an entry of L is relative to the norm of its ROW, not to the entry itself (a small
         # off-diagonal entry next to large ones carries a large relative error)
         rown = np.sqrt(np.sum(Lr * Lr, axis=1))
@@ -779,6 +786,12 @@ def do_cholesky(run, op):
     kept.hold(got)
     # further draws from the SAME sampler object: each is mean + L z for the deviates of that draw
     if op["api"] == "class":
+        if op.get("more") and not c15:
+            # the caller built the sampler from scratch arrays which it now refills (for the next sampler): the sampler
+            # it already has was made from the OLD mean and covariance
+            mean[...] = 99.0
+            cov[...] = np.eye(d) * 7.0
+            run.fault("caller_refilled_mean_and_covariance_after_construction")
         for t, n_more in enumerate(op.get("more", [])):
             del calls[:]
             run.fault("sampler_object_drawn_from_again")
